@@ -325,11 +325,12 @@ def table(tier="quick"):
     add("cp_permute_factors", "tensorly.cp_tensor.cp_permute_factors",
         lambda d: (lambda i=cpinit(d): cpt.cp_permute_factors(CPTensor(i), [CPTensor((i[0].copy(), [f[:, ::-1].copy() for f in i[1]]))])), fam="FPermute",
         exempt={"#1": "permutation indices"})
-    # the plain mask multipliers (family FMaskMul: the mask is used as passed in; see known_findings.d/C18.json mask_multiplier_*):
+    # the plain mask multipliers (repaired by ba7a532: the mask is cast into the context of the factors):
     # every mask dtype class, all four data dtypes, both tenalg backends, the one-matrix / 1-D shortcuts
     # the skeleton variant of the plain mask multipliers is SELECTED FROM THE SOURCE of this tree: an entry point that re-binds `mask` to
     # tl.tensor(mask, **tl.context(...)) before using it (the candidate repair build/fix_candidates/C18_mask_multiplier.diff) is compared with
-    # FMaskMulCast, one that uses the mask as passed in with FMaskMul (the code at adc0083; known finding mask_multiplier_*)
+    # FMaskMulCast (the code since the repair ba7a532), one that uses the mask as passed in with FMaskMul (the code before it): a regression is then
+    # compared with the right skeleton and reported by the predicate with a failing input
     MMV = mask_multiplier_variants(C.REPO)
     for mk in ("same", "bool", "int", "f64", "f32"):
         add("cp_to_tensor_mask" + ("" if mk == "same" else "_" + mk), "tensorly.cp_tensor.cp_to_tensor",
@@ -898,6 +899,9 @@ class Translator:
         self.path, self.seen = [], {}
         self.intvars = set()
         self.weakvars = set()
+        self.structs = {}        # name -> {"versions": [[temp variable per component], ...], "deps": names the components were built from}: a variable bound to a
+                                 # literal tuple / CPTensor((w, f)) / TuckerTensor((c, f)) ... whose components are still the ones it was built from
+        self.consts = {}         # loop counters with a statically known position: name -> "first" (== 0) | "later" (>= 1)
         self.retinfo = {}        # return variable -> (line of the return statement, position in the returned tuple, length of the tuple)
         self.arrayvars = set()   # names bound to an ndarray (allocation, element-wise result, slice of one): `x op= v` on them is IN PLACE
 
@@ -918,6 +922,9 @@ class Translator:
         return None
 
     def wr(self, name, e):
+        self.consts.pop(name, None)
+        for k in [k for k, v in self.structs.items() if name == k or name in v["deps"]]:
+            del self.structs[k]      # the container or something it was built from is written again: its components are no longer known
         if self.rename is not None:
             self.rename[name] = pn = "post." + name
             name = pn
@@ -1222,6 +1229,100 @@ class Translator:
         r = opjoin([joinlist(arrs)] + rest)
         return r if (raw or A in CONTAINER_CALLS or self.spec_of(A, n) is True) else self.inexact(r)
 
+    STRUCT_CLASSES = ("CPTensor", "TuckerTensor", "TTTensor", "TRTensor", "TTMatrix", "Parafac2Tensor")
+
+    def components(self, n):
+        """the component nodes of a container-valued ast node (literal tuple / list, a factorised-tensor constructor around one, a variable still
+        bound to such a container): a list of ast nodes / ('var', temp) expressions; [n] when n is not known to be a container"""
+        if isinstance(n, (ast.Tuple, ast.List)) and n.elts and not any(isinstance(x, ast.Starred) for x in n.elts):
+            return [c for x in n.elts for c in self.components(x)]
+        if isinstance(n, ast.Call) and self.call_name(n) in self.STRUCT_CLASSES and len(n.args) == 1 and not n.keywords:
+            return self.components(n.args[0])
+        if isinstance(n, ast.Name) and n.id in self.structs:
+            return [("var", t) for t in dict.fromkeys(t for v in self.structs[n.id]["versions"] for t in v)]
+        return [n]
+
+    def record_struct(self, name, value):
+        """after `name = <container literal>`: keep its components in temporaries so that a later `return name` reports them one by one"""
+        comps = self.components(value)
+        if len(comps) < 2:
+            return
+        temps, deps = [], set()
+        for k, c in enumerate(comps):
+            e = c if isinstance(c, tuple) else self.ex(c)
+            if not isinstance(c, tuple):
+                deps |= {x.id for x in ast.walk(c) if isinstance(x, ast.Name)}
+            if e is None or e[0] in ("dtypeof", "dtconst"):
+                e = BOOLS        # not an array (None weights ...): a placeholder that is never reported
+            t = self.fresh("comp", value, f":{name}:{k}")
+            self.out.append((t, e)); self.defined.add(t)
+            if idxlike(e, self.intvars, self.weakvars): self.intvars.add(t)
+            if weaklike(e, self.weakvars): self.weakvars.add(t)
+            temps.append(t)
+        self.structs[name] = {"versions": [temps], "deps": deps}
+
+    def loop_counter(self, loop):
+        """(name, first value) of a counter that takes the values first, first+1, ... : `for i in range(n)` / `range(a, n)` with a literal a,
+        `for i, x in enumerate(xs)` (optional literal start); None otherwise"""
+        if not isinstance(loop, ast.For) or not isinstance(loop.iter, ast.Call):
+            return None
+        d = self.dotted(loop.iter.func)
+        nm = d[-1] if d else None
+        it, tg = loop.iter, loop.target
+        if nm == "range" and isinstance(tg, ast.Name) and not it.keywords:
+            if len(it.args) == 1:
+                return tg.id, 0
+            if len(it.args) == 2 and isinstance(it.args[0], ast.Constant) and isinstance(it.args[0].value, int) and it.args[0].value >= 0:
+                return tg.id, it.args[0].value
+        if nm == "enumerate" and isinstance(tg, ast.Tuple) and len(tg.elts) == 2 and isinstance(tg.elts[0], ast.Name):
+            start = 0
+            extra = it.args[1:] + [k.value for k in it.keywords if k.arg == "start"]
+            if extra:
+                if len(extra) == 1 and isinstance(extra[0], ast.Constant) and isinstance(extra[0].value, int) and extra[0].value >= 0:
+                    start = extra[0].value
+                else:
+                    return None
+            return tg.elts[0].id, start
+        return None
+
+    def set_counter(self, loop, u):
+        """first (u = 0) / a later (u = 1) iteration of an unrolled loop: what is statically known about its counter"""
+        c = self.loop_counter(loop)
+        if c is not None:
+            name, first = c
+            self.consts[name] = "first" if (u == 0 and first == 0) else "later"      # "later" = some value >= 1
+
+    def static_test(self, t):
+        """True / False when the test is decided by what is known about a loop counter (i == 0 in the first unrolled iteration, i >= 1 afterwards);
+        None otherwise.  This is the only path sensitivity of the translation besides `x is None` tests."""
+        if isinstance(t, ast.UnaryOp) and isinstance(t.op, ast.Not):
+            r = self.static_test(t.operand)
+            return None if r is None else (not r)
+        if isinstance(t, ast.BoolOp):
+            rs = [self.static_test(v) for v in t.values]
+            if isinstance(t.op, ast.And):
+                return False if any(r is False for r in rs) else (True if all(r is True for r in rs) else None)
+            return True if any(r is True for r in rs) else (False if all(r is False for r in rs) else None)
+        if isinstance(t, ast.Compare) and len(t.ops) == 1 and isinstance(t.left, ast.Name) and t.left.id in self.consts \
+                and isinstance(t.comparators[0], ast.Constant) and isinstance(t.comparators[0].value, int) and not isinstance(t.comparators[0].value, bool):
+            c, op, k = t.comparators[0].value, t.ops[0], self.consts[t.left.id]
+            if k == "first":
+                return {ast.Eq: 0 == c, ast.NotEq: 0 != c, ast.Lt: 0 < c, ast.LtE: 0 <= c, ast.Gt: 0 > c, ast.GtE: 0 >= c}.get(type(op))
+            # the counter is some value >= 1
+            if isinstance(op, ast.Eq):
+                return False if c <= 0 else None
+            if isinstance(op, ast.NotEq):
+                return True if c <= 0 else None
+            if isinstance(op, ast.Gt):
+                return True if c <= 0 else None
+            if isinstance(op, ast.GtE):
+                return True if c <= 1 else None
+            if isinstance(op, ast.Lt):
+                return False if c <= 1 else None
+            if isinstance(op, ast.LtE):
+                return False if c <= 0 else None
+        return None
+
     def node_is_array(self, n):
         """True only when the value of the ast node is certainly an ndarray (not a NumPy / Python scalar): allocations, tl.tensor, copies,
         element-wise functions / arithmetic / slices of such values.  Used for one purpose: an augmented assignment to such a name is an
@@ -1337,6 +1438,7 @@ class Translator:
                 if idxlike(c, self.intvars, self.weakvars): self.intvars.add(t)
                 if weaklike(c, self.weakvars): self.weakvars.add(t)
         pre_empty = set(self.empty)
+        pre_structs, struct_results = dict(self.structs), []
         results = []
         for bi, b in enumerate(blocks):
             # restore the state before the alternatives
@@ -1346,9 +1448,11 @@ class Translator:
                 else:
                     self.undefine(nm)
             self.empty = set(pre_empty)
+            self.structs = dict(pre_structs)
             for nm in (none_at[bi] if none_at else []):
                 self.undefine(nm)
             self.block(b)
+            struct_results.append(self.structs)
             res = {}
             for nm in names:
                 c = self.cur(nm)
@@ -1365,6 +1469,19 @@ class Translator:
             else:
                 self.undefine(nm)
         self.empty = set.intersection(*[e for _, e in results]) if results else pre_empty
+        # a container survives the alternatives when every alternative leaves it bound to known components (possibly different ones: then all
+        # versions are kept and reported - each of them is an output that has to be in context)
+        merged = {}
+        for k in set().union(*[set(r) for r in struct_results]) if struct_results else ():
+            if all(k in r for r in struct_results):
+                vs, deps = [], set()
+                for r in struct_results:
+                    for v in r[k]["versions"]:
+                        if v not in vs:
+                            vs.append(v)
+                    deps |= r[k]["deps"]
+                merged[k] = {"versions": vs, "deps": deps}
+        self.structs = merged
 
     def wr_raw(self, name, e):
         if self.rename is not None and name in self.rename:
@@ -1433,6 +1550,8 @@ class Translator:
                 self.assign(t, e)
                 if isinstance(t, ast.Name):
                     (self.arrayvars.add if isarr else self.arrayvars.discard)(t.id)
+            if len(s.targets) == 1 and isinstance(s.targets[0], ast.Name):
+                self.record_struct(s.targets[0].id, s.value)
             return
         if isinstance(s, ast.AnnAssign):
             if s.value is not None:
@@ -1455,16 +1574,23 @@ class Translator:
             if s.value is None:
                 return
             vals = [s.value] if not isinstance(s.value, ast.Tuple) else list(s.value.elts)
-            for v in vals:
-                e = self.ex(v)
-                if e is None or e[0] in ("dtypeof", "dtconst") or idxlike(e, self.intvars, self.weakvars) or weaklike(e, self.weakvars):
-                    continue          # not an array of the numeric context (None, index / count outputs, Python scalars)
-                r = self.fresh("ret", v)
-                self.out.append((r, e)); self.defined.add(r); self.rets.append(r)
-                self.retinfo[r] = (getattr(s, "lineno", 0), vals.index(v), len(vals))
+            for pos, v in enumerate(vals):
+                # a returned container (tuple, CPTensor((weights, factors)), a variable still bound to one) is reported component by component:
+                # each of weights / factors / core / errors is an output of its own (same position of the returned tuple for the callers)
+                for k, c in enumerate(self.components(v)):
+                    e = c if isinstance(c, tuple) else self.ex(c)
+                    if e is None or e[0] in ("dtypeof", "dtconst") or idxlike(e, self.intvars, self.weakvars) or weaklike(e, self.weakvars):
+                        continue          # not an array of the numeric context (None, index / count outputs, Python scalars)
+                    r = self.fresh("ret", v, f":{k}")
+                    self.out.append((r, e)); self.defined.add(r); self.rets.append(r)
+                    self.retinfo[r] = (getattr(s, "lineno", 0), pos, len(vals))
             return
         if isinstance(s, ast.If):
             self.ex(s.test)
+            decided = self.static_test(s.test)
+            if decided is not None:
+                self.block(s.body if decided else s.orelse)      # decided by the position of an unrolled loop: only that alternative
+                return
             none_then, none_else = [], []
             t = s.test
             if isinstance(t, ast.Compare) and len(t.ops) == 1 and isinstance(t.comparators[0], ast.Constant) and t.comparators[0].value is None \
@@ -1477,10 +1603,14 @@ class Translator:
                 self.path.append(u)
                 if isinstance(s, ast.For):
                     self.bind_target(s.target, s.iter, symbolic=False)
+                    self.set_counter(s, u)
                 else:
                     self.ex(s.test)
                 self.block(s.body)
                 self.path.pop()
+            c = self.loop_counter(s)
+            if c is not None:
+                self.consts.pop(c[0], None)
             self.block(s.orelse)
             return
         if isinstance(s, ast.Try):
@@ -1567,21 +1697,25 @@ class Translator:
             pre, lp, post = body[:main], body[main], body[main + 1:]
             self.block(pre)
 
-            def one_pass():
+            def one_pass(u):
                 if isinstance(lp, ast.For):
                     self.bind_target(lp.target, lp.iter, symbolic=False)
+                    self.set_counter(lp, u)       # the peeled pass is iteration 0, the loop body stands for every later one
                 else:
                     self.ex(lp.test)
                 self.block(lp.body)
+                c = self.loop_counter(lp)
+                if c is not None:
+                    self.consts.pop(c[0], None)
                 self.rename = {}
                 self.block(post)
                 attrs_as_outputs()
                 self.rename = None
-            one_pass()
+            one_pass(0)
             init = self.out
             self.out = []
             self.seen = {k: v for k, v in self.seen.items() if False}
-            one_pass()
+            one_pass(1)
             loop = self.out
         return init, loop, list(dict.fromkeys(self.rets))
 
@@ -2119,9 +2253,9 @@ def clf_mask_multiplier(f):
     return prom != dt and all(o == prom for _, o, _ in i["failures"])
 
 
-# the classes repaired by c906acd and 45ef7df are closed (their predicates are kept for the replay messages); open: the plain mask
-# multipliers (known_findings.d/C18.json mask_multiplier_*)
-CLASSIFIERS = {"mask_multiplier_promotes": clf_mask_multiplier}
+# no known finding is open: the classes repaired by c906acd, 45ef7df and ba7a532 (plain mask multipliers) are closed; the predicates are
+# kept for the replay messages and in case a class has to be registered again
+CLASSIFIERS = {}
 
 
 def _install_known_loader():
